@@ -74,6 +74,7 @@ fn run_k<const K: usize>(sc: &Value, id: usize, out: Out) {
     let op = sc["op"].as_str().unwrap_or("");
     let exp = sc.get("exp").cloned().unwrap_or(none());
     let exp = if op.ends_with("_aff") { none() } else { exp };
+    let rhs_ops = if op == "apply_func" { Vec::new() } else { rhs_ops };
     let lhs: AffTree<K> = build(lhs_ops);
     let rhs: Option<AffTree<K>> = if rhs_ops.is_empty() { None } else { Some(build(&rhs_ops)) };
     let pre = tree_json(&lhs, q);
